@@ -228,13 +228,8 @@ def run(ctx):
            func=send.qual, file=send.module.rel, construct="pre-send and post-response drains", detail={"sources": srcs},
            fail="the pre-send or post-response drain no longer adds its frames to the result: unsolicited state reports are lost")
     read_returns_decoded(ctx, "C01.c")
-    ra = ctx.fn(f"{LAN}._read_available")
-    ys = [n for n in ast.walk(ra.node) if isinstance(n, ast.Yield)]
-    ra_ok = len(ys) == 1 and isinstance(ys[0].value, ast.Await) and isinstance(ys[0].value.value, ast.Call) and attr_call(ys[0].value.value, "_read") \
-        and any(k.arg == "timeout" and prog.fold_or_none(k.value, ra.module, ra.cls) == 0 and prog.fold_or_none(k.value, ra.module, ra.cls) is not False
-                for k in ys[0].value.value.keywords)
-    ctx.ob("C01.c", ra.qual, ra_ok, "_read_available yields every queued frame without blocking", func=ra.qual, file=ra.module.rel, construct="_read_available",
-           fail="_read_available no longer yields each queued decoded frame")
+    from ._pipeline import drain_yields_decoded
+    drain_yields_decoded(ctx, "C01.c")
     v3w = ctx.fn(f"{V3}.write")
     v3ws = summarize(prog, v3w)
     sup = [t for n, t in v3ws.ta.terms_at.items() if isinstance(n, ast.Call) and call_is(t, f"{V2}.write")]
@@ -369,6 +364,8 @@ def run(ctx):
     sub_run(ctx, c04, "t4")
     sub_run(ctx, c05, "t5")
     sub_run(ctx, c12, "t12")
+    from . import c13
+    sub_run(ctx, c13, "t13")          # (every valid frame of an exchange is used, every invalid one only dropped: C13 / C14)
     ctx.require_min("apply_chains", 15)
     ctx.require_min("result_sources", 3)
     ctx.require_min("update_loops", 3)
